@@ -28,9 +28,9 @@ _m("C03", "Generated search over sequences x k, d, direction incl. walks forced 
 _m("C04", "Exhaustive enumeration of all 2^m one-block inputs (m <= 12 quick, <= 16 thorough) plus generated LFSR / hostile blocks at m = 500/1000/5000, matrices of constructed rank, Maurer inputs with restricted initialisation alphabets; a panic is a violation; values compared with bitset GF(2) rank, textbook Berlekamp-Massey and a map-based Maurer. "
           "Thorough adds native go fuzz targets with the same differential oracle. Exploration (exhaustive for small m).",
    "property-based testing (rapid) + exhaustive small-block enumeration + native go fuzzing, differential against reference implementations")
-_m("C05", "Generated search over lengths (every n <= 64, powers of two, 2^k+1, arbitrary) and spectral shapes, compared with a naive O(N^2) DFT / independent recursive FFT; bins within 1e-9 of the threshold may count either way, exactly as the property allows. Exploration level.",
+_m("C05", "Generated search over lengths (every n <= 64, powers of two, 2^k+1, arbitrary), spectral shapes and GOMAXPROCS (incl. counts that are not powers of two), compared with a naive O(N^2) DFT / independent recursive FFT; bins within 1e-9 of the threshold may count either way, exactly as the property allows. The thorough tier also runs n = 10^8 and 2^27 against a closed-form spectrum. Exploration level.",
    "property-based testing (rapid) against naive DFT / independent FFT reference")
-_m("C06", "Generated (a,x,x2) triples dense around both switch-over lines, the underflow cut-off and both tails, compared with a finite-sum closed form in 320-bit big.Float (tolerance 1e-12+1e-14a); range, x<=0 and monotonicity asserted. Exploration over a continuous domain.",
+_m("C06", "Generated (a,x,x2) triples dense around both switch-over lines, the underflow cut-off and both tails, compared with a finite-sum closed form in 320-bit big.Float (tolerance 1e-12+1e-14a); range, x<=0 and monotonicity asserted; a third of the cases are preceded by other calls (shapes at power-of-two strides) because the result must not depend on history. Exploration over a continuous domain.",
    "property-based testing (rapid) against a high-precision reference + metamorphic monotonicity")
 _m("C07", "Streams composed from a pool of classified samples so that pass counts sit at threshold-1/threshold and ten-bin histograms sit on both sides of the 1e-4 uniformity boundary; verdict, error and named item compared with an independent decision model; trailing bytes must not matter. Exploration: the 10^6-bit workflows cost 30-80 s per stream, so few of those per run.",
    "property-based testing (rapid) with boundary-targeted stream composition against an independent decision model")
@@ -42,19 +42,19 @@ _m("C10", "Metamorphic/differential: the same generated stream delivered in full
    "property-based metamorphic testing (rapid) over read-size histories")
 _m("C11", "Generated numByte x contents (incl. contents tuned so that the poker P for one m crosses 0.01 while another does not) compared with a reference poker test and the documented m rule; exact byte consumption asserted; sweep over every numByte 0..400 (0..4096 thorough). Exploration level.",
    "property-based testing (rapid) against a reference model + length sweep")
-_m("C13", "Generated directory trees x worker counts x GOMAXPROCS run through the built rddetector binary (2*10^4 and 10^6 scales end to end; the 10^8 worker through an overlay shim on short files; the 10^8 header switch on sparse files); the report is judged cell by cell against the library call that the header text names. Exploration level.",
+_m("C13", "Generated directory trees x worker counts x GOMAXPROCS run through the built rddetector binary (2*10^4 and 10^6 scales end to end; the 10^8 worker through an overlay shim on short files; the 10^8 header switch on sparse files); the report is judged cell by cell against the library call that the header text names; schedules of worker / writer / walker goroutines are sampled through worker counts, GOMAXPROCS, pinned one-worker shards and race-detector builds of the binary and the shim; an older report may already exist at the output path. Exploration level.",
    "property-based testing (rapid) of the built CLI with a header-driven differential oracle")
-_m("C14", "All 256 constant streams and generated periodic tiles (uniform, sparse at every bit position, structured) through all seven workflows (sequential first, then the parallel twin); hostile single-bit 64-byte tiles deterministically through PowerOnDetect; single-shot 0x00/0xFF at every length (sweep). Oracle: no panic, rejected with error. Exploration level.",
+_m("C14", "All 256 constant streams and generated periodic tiles (uniform, sparse at every bit position, structured) through all seven workflows (sequential first, then the parallel twin); hostile single-bit 64-byte tiles deterministically through PowerOnDetect; single-shot 0x00/0xFF at every length up to 4096 (sweep), at large lengths up to 2^24 and after an earlier healthy call (history). Oracle: no panic, rejected with error. Exploration level.",
    "property-based testing (rapid) + enumeration of constant sources, validity-predicate oracle")
-_m("C15", "Generated byte strings x tests x documented parameters: bit-identity (Float64bits) between byte entry point, bit entry point on the harness's own MSB-first expansion, convenience wrapper, registry runner with the standard's defaults, Round15/Round12, ReadGroup, B2bitArr/B2Byte. Exploration level.",
+_m("C15", "Generated byte strings x tests x documented parameters: bit-identity (Float64bits) between byte entry point, bit entry point on the harness's own MSB-first expansion, convenience wrapper, registry runner with the standard's defaults, Round15/Round12, ReadGroup, B2bitArr/B2Byte; results handed out by the library are overwritten by the caller and the calls repeated (no aliasing of shared state). Exploration level.",
    "property-based differential testing (rapid) between entry points, bit-identity oracle")
-_m("C16", "Generated and swept extreme sequences (constant, alternating, single transition, extreme bias, balanced, sparse) from each test's minimum length to 10^6 (10^7 thorough) through every test and parameter: range, finiteness, P/Q relation and Pass flag. Exploration level.",
+_m("C16", "Generated and swept extreme sequences (constant, alternating, single transition, extreme bias, balanced, sparse) from each test's minimum length to 10^6 (10^7 thorough) through every test and parameter: range, finiteness, P/Q relation and Pass flag; for five runners inputs whose P lies within 3e-6 of 0.01 are constructed by inverting the closed-form P-value. Exploration level.",
    "property-based testing (rapid) with a validity-predicate oracle + size sweep")
 _m("C17", "Generated sequences x admissible transformations (complement, reverse, rotation by any amount, block permutation + tail rewrite): metamorphic equalities listed in the property, tolerance 1e-9 (+ n-proportional summation-order allowance). Exploration level.",
    "property-based metamorphic testing (rapid)")
 _m("C18", "Generated plans of 2..64 concurrent invocations of mixed tests on shared inputs: solitary vs repeated vs concurrent results bit-identical, inputs equal to their snapshots, plus the same check in a -race binary. Exploration: interleavings are sampled.",
    "property-based testing (rapid) of concurrent invocations + Go race detector")
-_m("C19", "Generated and swept N, inputs (impulses and tones at every position for small N, random vectors), constructor arguments and wrong-length slices compared with the DFT definition (naive DFT, analytic spectra, directly summed bins, Parseval) and the inverse round trip. Exploration level.",
+_m("C19", "Generated and swept N, inputs (impulses and tones at every position for small N, random vectors), constructor arguments and wrong-length slices compared with the DFT definition (naive DFT, analytic spectra, directly summed bins, Parseval) and the inverse round trip, under varying GOMAXPROCS; fft.New(2^27) is constructed in every run, a 2^27-point transform in the thorough tier. Exploration level.",
    "property-based testing (rapid) against the DFT definition + round-trip + argument sweep")
-_m("C20", "Generated (s, n, output path kind, NumCPU) runs of the built rdgen binary in a scratch directory with a full file-system census and the detector's own counting pass. Exploration level.",
+_m("C20", "Generated (s, n, output path kind, NumCPU) runs of the built rdgen binary in a scratch directory (odd directory names, pre-existing files, an earlier run into the same directory) with a full file-system census and the detector's own counting pass. Exploration level.",
    "property-based testing (rapid) of the built CLI with a file-system census oracle")
